@@ -359,7 +359,7 @@ func installExternals() {
 		}
 		return s
 	})
-	vp("IsSymbolic", func(fr *frame, args []value) value { return isSym(args[0]) })
+	vp("IsSymbolic", func(fr *frame, args []value) value { return anySym(args[0]) })
 	vp("Concrete", func(fr *frame, args []value) value { return concretizeVal(args[0]) })
 	vp("ConcreteByte", func(fr *frame, args []value) value { return concretizeVal(args[0]) })
 	vp("ReadOnly", func(fr *frame, args []value) value {
@@ -402,4 +402,29 @@ func installExternals() {
 		X.assert(eFalse, concreteString(args[0]))
 		return nil
 	})
+}
+
+// anySym reports whether v (possibly boxed in an interface, a string or a slice) holds a symbolic scalar.
+func anySym(v value) bool {
+	switch x := v.(type) {
+	case iface:
+		return anySym(x.v)
+	case *sym:
+		return true
+	case sstr:
+		return true
+	case []value:
+		for _, e := range x {
+			if anySym(e) {
+				return true
+			}
+		}
+	case structure:
+		for _, e := range x {
+			if anySym(e) {
+				return true
+			}
+		}
+	}
+	return false
 }
